@@ -12,6 +12,7 @@ func (srv *Server) Accessories(w http.ResponseWriter, r *http.Request) {
 	case hap.MethodGET:
 		log.Debug.Printf("%v GET /accessories", r.RemoteAddr)
 
+		verifBeforeLock(srv.mutex)
 		srv.mutex.Lock()
 		if err := WriteJSON(w, r, srv.container); err != nil {
 			log.Info.Println(err)
